@@ -52,6 +52,12 @@ def make_spec(task):
         t['priority'] = PRIOS[t['tid'] % 5]
         for kind in ('pre', 'post', 'inv'):
             t[kind] = ["C('t/%d:%s%d', v)" % (t['tid'], kind, i) for i in range(2)]
+    if spec['transitions']:
+        # an exact twin: a second transition that is equal to the first one in every field (a statechart may
+        # hold it; it must survive the round trip as a second transition)
+        twin = dict(spec['transitions'][0], tid=len(spec['transitions']))
+        twin.update({k: list(twin[k]) for k in ('pre', 'post', 'inv')})
+        spec['transitions'].append(twin)
     return spec
 
 
